@@ -843,6 +843,12 @@ func (f *frame) applyContract(fs *FuncSpec, actuals []CV, res *types.Tuple, st *
 	f.npanic["call:"+what]++
 	envPre := &Env{g: g, st: st, old: st, vars: vars, pc: pc, hyp: false}
 	for k, c := range req {
+		if !g.wantClause(c) {
+			// a precondition that belongs to another property: neither checked nor used here (the
+			// callee's postconditions then rest on it as a listed assumption)
+			g.trustedUse["precondition of "+fs.Key+" left to "+strings.Join(c.Props, ",")+": "+c.Text] = true
+			continue
+		}
 		goal := envPre.tr(c.E, true)
 		envPre.want(goal, "Bool", c.E)
 		lbl := c.Label
